@@ -68,6 +68,40 @@ package fastcgi
 //@ axiom (b0 int, b1 int, b2 int, b3 int) (0 <= b0 && b0 < 128) ==> decode1(b0, b1, b2, b3) == b0
 //@ axiom (b0 int, b1 int, b2 int, b3 int) (128 <= b0 && b0 < 256) ==> decode1(b0, b1, b2, b3) == (b0 - 128) * 16777216 + b1 * 65536 + b2 * 256 + b3
 
+//@ unit fcgi_do frames=on props=C13 nilchecks=on filter=`fastcgi\.FCGIClient\)\.Do$`
+//@ // C13 at the place where the body crosses to the responder: Do opens the request, sends the parameters, then copies
+//@ // the CALLER'S reader itself - not a wrapper that could cut it short or pad it, whatever CONTENT_LENGTH announced - into
+//@ // the Stdin stream writer, and only then ends that stream; a nil body sends the empty stream alone
+//@ ghost began int
+//@ ghost paramsSent int
+//@ ghost copied int
+//@ ghost closed int
+//@ ghost stdinW int
+//@ func (*FCGIClient).writeBeginRequest
+//@   modifies ghost:began, E:uint8
+//@   ensures began == old(began) + 1
+//@ func (*FCGIClient).writePairs
+//@   requires c != nil
+//@   modifies ghost:paramsSent, E:uint8
+//@   ensures paramsSent == old(paramsSent) + 1
+//@ func newWriter
+//@   ensures result != nil && result.Writer != nil && result.closer != nil
+//@ extern io.Copy
+//@   modifies ghost:copied
+//@   ensures copied == old(copied) + 1
+//@ func (*bufWriter).Close
+//@   requires w != nil && w.Writer != nil && w.closer != nil
+//@   modifies ghost:closed, E:uint8
+//@   ensures closed == old(closed) + 1
+//@ func (*FCGIClient).Do
+//@   requires c != nil && began == 0 && paramsSent == 0 && copied == 0 && closed == 0
+//@   modifies ghost:began, ghost:paramsSent, ghost:copied, ghost:closed, ghost:stdinW, E:uint8
+//@   at call newWriter before [body_stream_is_stdin] arg1 == Stdin && arg0 == c
+//@   at call newWriter do stdinW = result
+//@   at call io.Copy before [the_callers_reader_itself_into_the_stdin_stream_after_the_params] arg1 == old(req) && arg0 == stdinW && began == 1 && paramsSent == 1 && closed == 0 && copied == 0
+//@   at call (*bufWriter).Close before [stream_ended_after_the_whole_body] arg0 == stdinW && (old(req) != nil ==> copied == 1)
+//@   ensures [order_complete] err == nil ==> (began == 1 && paramsSent == 1 && closed == 1 && (old(req) != nil ==> copied == 1) && r != nil)
+
 //@ unit stream_reader frames=on props=C13,C19 filter=`fastcgi\.streamReader\)\.Read$`
 //@ // ghost: number of record reads on the connection that failed (set by the contract of record.read, nothing else)
 //@ ghost readFailures int
@@ -247,7 +281,7 @@ package fastcgi
 //@   modifies header.Version, header.Type, header.ID, header.ContentLength, header.PaddingLength, ghost:held
 //@   ensures [lock_balance] held(c.mutex) == old(held(c.mutex))
 
-//@ unit fcgi_client_rest_sweep props=C19,C13 files=fcgiclient.go nilchecks=on nonnil_params=on exclude=`streamWriter\)\.(Write|Close)$|bufWriter\)\.Close$|FCGIClient\)\.(writeBeginRequest|writeEndRequest|writePairs|writeRecord|Request|Get|Head|Options|Post)$|record\)\.read$|fastcgi\.(encodeSize|chunked|newWriter|writeHeader)$|header\)\.init$|streamReader\)\.Read$` filter=`.`
+//@ unit fcgi_client_rest_sweep props=C19,C13 files=fcgiclient.go nilchecks=on nonnil_params=on exclude=`streamWriter\)\.(Write|Close)$|bufWriter\)\.Close$|FCGIClient\)\.(writeBeginRequest|writeEndRequest|writePairs|writeRecord|Do|Request|Get|Head|Options|Post)$|record\)\.read$|fastcgi\.(encodeSize|chunked|newWriter|writeHeader)$|header\)\.init$|streamReader\)\.Read$` filter=`.`
 //@ // the remaining client code (dialling, Do, form and file posts, timeouts, closing): safety sweep
 //@ use @verif/specs/stdlib.spec:stdlib
 //@ use caskethttp/fastcgi/contracts_verif.go:fcgi_records
